@@ -106,7 +106,7 @@ func TestProp(t *testing.T) {
 		go func() {
 			defer rareDone.Done()
 			startR := time.Now()
-			vh.ForEach(nConfigs, 4, onlyCfg, func(ci int) { runRareConfig(rep, env, ci, perRare, onlyR) })
+			vh.ForEach(nConfigs, 8, onlyCfg, func(ci int) { runRareConfig(rep, env, ci, perRare, onlyR) })
 			rep.Extra("wall_rare_stream_s", time.Since(startR).Seconds())
 		}()
 	}
